@@ -20,7 +20,7 @@ def run(ctx):
     chains = [c for _n, c in cases if c and c[0]["k"] not in AddrKinds]
     if len(chains) < 1800:
         raise Inconclusive("only %d chains generated" % len(chains))
-    reps = 3 if quick else 25
+    reps = 3 if quick else 60
     scen = [{"id": "ch%d" % i, "kind": "chain", "chain": c, "seed": ctx.seed * 100003 + i, "reps": reps}
             for i, c in enumerate(chains)]
     scen += [{"id": "addr-" + k, "kind": "addr", "addr": k, "seed": ctx.seed * 7 + j, "reps": 40 if quick else 400}
@@ -57,7 +57,7 @@ def run(ctx):
     hcases, _ = ctx.tlc_emit("Handler", "Handler_MC.cfg", tag="HCASE", label="handler life cycle: kinds x failure points", count=True)
     hcases = [h for _n, h in hcases]
     hscen = []
-    for i in range(2 if quick else 10):
+    for i in range(2 if quick else 20):
         order = hcases[:]
         random.Random(ctx.seed * 100 + i).shuffle(order)
         hscen.append({"id": "handlers%d" % i, "cases": [{"kind": h["kind"], "fail": h["fail"]} for h in order], "seed": ctx.seed * 100 + i})
